@@ -151,7 +151,7 @@ def explore_validate(ctx, rp, rmix, wmix, tag, runs):
     script = os.path.join(vlib.BUILD, "%s_%s_ex.script" % (ctx.prop, tag))
     with open(script, "w") as f:
         f.write("BEGIN ex %s\nEND\n" % vlib.canon({"R": rk, "W": wk, "explore": {"runs": runs, "seed": ctx.seed, "out": trace}}))
-    rc, out = vlib.run_cmd([rp], stdin_path=script, timeout=600)
+    rc, out = vlib.run_cmd([rp], stdin_path=script, timeout=1800, env={"REPLAY_SCENARIO_TIMEOUT": "1700"})
     os.remove(script)
     if rc != 0 or not os.path.exists(trace):
         ctx.violation("explore:crash:%s" % tag, "exploration of mix %s|%s terminated abnormally: %s" % (rmix, wmix, out[-800:]),
